@@ -18,6 +18,8 @@ func checkC12(c *an.Ctx) {
 	c.Rule("C12.2", "commands run under the runner context (E5): every Execute of the before/command/after phases receives TaskRunner.ctx; Execute hands it, or a WithTimeout child of it, to the interpreter; ctx and cancelFunc come from one WithCancel pair assigned only in the constructor")
 	c.Rule("C12.3", "scheduler (E3/E4): Scheduler.Cancel stores the flag before cancelling the runner; the flag is loaded on every pass before any launch; a cancelled run still waits for its stages")
 	c.Rule("C12.4", "an interrupted command is fatal (E2): the rows 'not an exit status' of the job-walk table mark the task errored and return the error, with and without allow_failure")
+	c.Rule("C12.5", "how a running command is stopped (library summary, option table): every interp.New in the module is given options from the closed set StdIO / Env / Dir / Params / OpenHandler, and an ExecHandler only if it is interp.DefaultExecHandler with a positive constant grace period — the library default interrupts the command, lets it stop its own children and kills it after the grace period; with a non-positive period the command is killed outright, its children are orphaned holding the output pipes, and the interpreter (and with it Run and Cancel) waits for them")
+	c.Summaries = append(c.Summaries, "mvdan.cc/sh/v3@v3.1.1 interp.DefaultExecHandler(d): on context cancellation sends os.Interrupt, then Kill after d; with d <= 0 sends Kill at once (read in interp/handler.go); interp.New installs DefaultExecHandler(2s)")
 	c.NotDecided = append(c.NotDecided, "promptness in wall-clock terms", "how the interpreter kills children", "absence of deadlock in general (only this protocol's shape)")
 	p := c.P
 	r := resolveRunner(c, "C12.0")
@@ -89,6 +91,90 @@ func checkC12(c *an.Ctx) {
 
 	// C12.4
 	executeTable(c, r, "C12.4", false)
+
+	// C12.5
+	interpOptions(c, "C12.5")
+}
+
+// interpOptions checks C12.5.
+func interpOptions(c *an.Ctx, rule string) {
+	p := c.P
+	plain := map[string]bool{"StdIO": true, "Env": true, "Dir": true, "Params": true, "OpenHandler": true}
+	n := 0
+	for _, fn := range p.Funcs {
+		if !an.InModule(fn) {
+			continue
+		}
+		an.EachInstr(fn, func(in ssa.Instruction) {
+			call, ok := in.(*ssa.Call)
+			if !ok || call.Call.IsInvoke() {
+				return
+			}
+			callee := call.Call.StaticCallee()
+			if callee == nil || callee.Pkg == nil || callee.Pkg.Pkg.Path() != "mvdan.cc/sh/v3/interp" || callee.Name() != "New" {
+				return
+			}
+			n++
+			var bad []string
+			opts := call.Call.Args
+			if len(opts) == 1 {
+				if an.IsNilConst(opts[0]) {
+					opts = nil
+				} else if el := an.VariadicElems(opts[0]); el != nil {
+					opts = el
+				} else {
+					bad = append(bad, "the option list is not a literal argument list ("+an.Prov(opts[0])+")")
+					opts = nil
+				}
+			}
+			for _, o := range opts {
+				if o == nil {
+					bad = append(bad, "an option could not be identified")
+					continue
+				}
+				for _, src := range an.Sources(o) {
+					oc, ok := src.(*ssa.Call)
+					var of *ssa.Function
+					if ok {
+						of = oc.Call.StaticCallee()
+					}
+					if of == nil || of.Pkg == nil || of.Pkg.Pkg.Path() != "mvdan.cc/sh/v3/interp" {
+						bad = append(bad, "an option is not built by a function of the interpreter package ("+an.Prov(src)+")")
+						continue
+					}
+					switch {
+					case plain[of.Name()]:
+					case of.Name() == "ExecHandler":
+						good := false
+						for _, hs := range an.Sources(oc.Call.Args[0]) {
+							hc, ok := hs.(*ssa.Call)
+							if !ok || hc.Call.StaticCallee() == nil || hc.Call.StaticCallee().Name() != "DefaultExecHandler" || hc.Call.StaticCallee().Pkg != of.Pkg {
+								bad = append(bad, "the exec handler is not the library's default handler ("+an.Prov(hs)+")")
+								continue
+							}
+							d, isC := an.ConstInt(hc.Call.Args[0])
+							switch {
+							case !isC:
+								bad = append(bad, "the grace period of the exec handler is not a constant ("+an.Prov(hc.Call.Args[0])+")")
+							case d <= 0:
+								bad = append(bad, fmt.Sprintf("the exec handler's grace period is %d: a cancelled command is killed outright, without the interrupt that lets it stop its children — they keep the output pipes open and the interpreter, Run and Cancel wait for them", d))
+							default:
+								good = true
+							}
+						}
+						_ = good
+					default:
+						bad = append(bad, "option "+of.Name()+" is outside the reviewed set")
+					}
+				}
+			}
+			bad = dedup(bad)
+			c.Check(len(bad) == 0, rule, an.Short(fn)+":interp.New", call.Pos(), fmt.Sprintf("%d options, all from the reviewed set; commands are stopped by the library's default handler", len(opts)), strings.Join(bad, "; "))
+		})
+	}
+	if n == 0 {
+		c.Und(rule, "interp.New:call sites", token.NoPos, "the interpreter is not constructed anywhere in the module")
+	}
 }
 
 func cancelIdempotent(c *an.Ctx, r *runnerRoles, rule string) {
